@@ -90,13 +90,31 @@ def plan(prop, tier):
             jobs = [gen_job("c14", "native-debug", 3000, 16, timeout=1800), gen_job("c14", "native-release", 3000, 16, timeout=1800), gen_job("c14", "miri", 4, 16, timeout=2400)]
         return dict(jobs=jobs, level="exploration", rule=rule, floor_cells=["class:BufMut:Vec", "class:BufMut:LimitedBuf<Vec>", "class:BufMutSlice:array8", "class:BufMutSlice:tuple8", "class:BufSlice:limited-array8", "class:Buf:LimitedBuf", "class:Buf:all-types"],
                     floor_evaluations=1000, assumptions=["IoSlice/IoMutSlice have the layout of struct iovec (a10 hands arrays of them to the kernel as iovecs)", "only the listed buffer types are covered; ReadBuf is covered by C15"], also=[])
+    if prop == "C10":
+        rule = ("byte-sink/byte-source model on the simulated kernel: (a) exhaustive: every composition of totals 1..6 into short transfers for write_all/send_all/read_n/recv_n and every split of the total over 2-3 buffers (empty buffers in every position) for the vectored variants; "
+                "(b) random shapes: 1..8 buffers, lengths 0..300 and >64KiB, zero transfers, injected errors, offsets {cursor,0,1,2^32-1,2^40}, random flag subsets, zero-copy, extract variants; every continuation request is checked (opcode, fd, offset, flags, exactly the unwritten bytes); distinct = distinct shape descriptions; non-trivial = at least 2 requests")
+        if tier == "quick":
+            jobs = [gen_job("c10", "native-debug", 1500, 8), gen_job("c10", "native-release", 1500, 4)]
+        else:
+            jobs = [gen_job("c10", "native-debug", 60000, 16, timeout=1800), gen_job("c10", "native-release", 60000, 16, timeout=1800), gen_job("c10", "asan", 3000, 16, timeout=1800), gen_job("c10", "miri", 6, 16, timeout=2400, params={"noexhaustive": "1"})]
+        return dict(jobs=jobs, level="exploration", rule=rule, floor_cells=["family:write_all", "family:write_all_vectored", "family:send_all", "family:send_all_vectored", "family:read_n", "family:read_n_vectored", "family:recv_n", "family:recv_n_vectored", "empty-buffer:trailing", "empty-buffer:leading", "empty-buffer:middle", "zero-transfer", "zero-copy", "positional", "buffers:8", "exhaustive_small_shapes"],
+                    floor_evaluations=3000, assumptions=SIMK_ASSUMPTIONS, also=[])
+    if prop == "C15":
+        rule = ("a ReadBuf filled by a simulated pool read (buffer sizes 1..512, fill 0..size, pools of 1-8 buffers) receives 1-12 random edit calls {truncate, clear, remove with all bound forms incl. usize::MAX, set_len, extend_from_slice, spare_capacity_mut+set_len} and optionally a re-read into its spare capacity; "
+                "oracle = Vec<u8> with fixed capacity (panics compared with Vec::drain's), canary bytes in every other slot, the (addr,bid) written to the buffer ring at release; both debug and release profiles; distinct = distinct edit sequences")
+        if tier == "quick":
+            jobs = [gen_job("c15", "native-debug", 4000, 8), gen_job("c15", "native-release", 4000, 8)]
+        else:
+            jobs = [gen_job("c15", "native-debug", 150000, 16, timeout=1800), gen_job("c15", "native-release", 150000, 16, timeout=1800), gen_job("c15", "asan", 5000, 16, timeout=1800), gen_job("c15", "miri", 8, 16, timeout=2400)]
+        return dict(jobs=jobs, level="exploration", rule=rule, floor_cells=["edit:remove", "edit:truncate", "edit:clear", "edit:set_len", "edit:extend", "edit:spare+set_len", "edit:reread", "native-release/c15"],
+                    floor_evaluations=5000, assumptions=SIMK_ASSUMPTIONS, also=["C08"])
     return None
 
 
 ENGINES = [
     dict(name="baton-scheduler", path="/verif/harness/src/sched.rs, src/props/mt.rs", serves_properties=["C04"], kind_free_text="runtime monitoring: real threads, one running at a time, seeded scheduler switching at the cfg(a10_verif) hook points; reproducible schedules"),
     dict(name="pure-sweep", path="/verif/harness/src/props/c14.rs", serves_properties=["C14"], kind_free_text="differential sweep of pure functions against a reference model, natively and under Miri"),
-    dict(name="simk-explorer", path="/verif/harness (scenarios c01..c09 on src/simk, src/world.rs, src/props/generic.rs)", serves_properties=["C01", "C02", "C03", "C05", "C06", "C09"], kind_free_text="runtime monitoring: real a10 driven single-threaded against an in-process simulated io_uring kernel with adversarial completion timing; boundary oracles (allocator monitor, waker ledger, descriptor ledger, request log)"),
+    dict(name="simk-explorer", path="/verif/harness (scenarios c01..c09 on src/simk, src/world.rs, src/props/generic.rs)", serves_properties=["C01", "C02", "C03", "C05", "C06", "C09", "C10", "C15"], kind_free_text="runtime monitoring: real a10 driven single-threaded against an in-process simulated io_uring kernel with adversarial completion timing; boundary oracles (allocator monitor, waker ledger, descriptor ledger, request log)"),
 ]
 
 _NOTE = "trusted base: simk's model of the io_uring kernel (independent ABI table, DESIGN.md 2.2), the five a10_verif hook points, the harness monitors; judged only on the histories generated for the given VERIF_SEED"
@@ -125,6 +143,12 @@ CLAIMS = {
     "C14": dict(level="exploration", engine="pure-sweep", design_ref="DESIGN.md 4 C14", note="trusted base: the Vec<u8> reference model in the harness; IoSlice/IoMutSlice == struct iovec",
                 technique="differential sweep against a Vec<u8> model with pointer-bounds checks; the same sweep under Miri",
                 text="All buffer trait implementations and wrappers are exercised with systematic geometries (small ones exhaustively) and the full limit range including values >= 2^32; every exposed (ptr,len) must lie inside the vector's own spare capacity/contents, the reported lengths must agree, and writing a keyed pattern through the exposed pointers followed by set_init(n) must append exactly n bytes in order. Miri additionally turns any out-of-bounds or uninitialised access into an error."),
+    "C10": dict(level="exploration", engine="simk-explorer", design_ref="DESIGN.md 4 C10", note=_NOTE,
+                technique="reference-model monitor: simulated kernel as byte sink/source accepting scripted short transfers, every continuation request decoded and compared with the stream model; small shapes enumerated exhaustively",
+                text="For each composite future the kernel side accepts exactly the scripted number of bytes per request and records them; Ok is only accepted if the sink equals the concatenated input (or >= n bytes arrived in order for the read side), every continuation must carry the caller's opcode (zero-copy), descriptor, flags and the advanced offset and must offer exactly the not-yet-transferred bytes, WriteZero/UnexpectedEof only after a zero transfer with data left, extract variants must return the original buffers (same heap pointers)."),
+    "C15": dict(level="exploration", engine="simk-explorer", design_ref="DESIGN.md 4 C15", note=_NOTE,
+                technique="differential testing against a capacity-bounded Vec<u8> model with canaries around the slot, in debug and release profiles",
+                text="Random edit sequences on kernel-filled ReadBufs are compared call by call with a Vec<u8> of fixed capacity, including which ranges must panic (Vec::drain semantics) and that a rejected call leaves the buffer untouched; all other pool slots carry canaries; the buffer-ring entry written at release must name the slot the kernel selected. Run in both build profiles because overflow checks differ."),
     "C09": dict(level="exploration", engine="simk-explorer", design_ref="DESIGN.md 4 C09", note=_NOTE,
                 technique="fault injection of EINTR/ECANCELED completions with byte-for-byte comparison of re-issued submissions",
                 text="More than half of all completions in this scenario are EINTR/ECANCELED; the caller must never observe them, every re-issued submission must be byte-identical (opcode, fd, flags, offsets, addresses, lengths, user_data) to the first, failed attempts scribble the buffers so mixed data would show, and the value must be the last attempt's."),
